@@ -605,7 +605,7 @@ def s5_faithful(chk: Check, proj: Project) -> None:
 
 
 MANIFEST = {
-    "text": "Decides termination structure of the hand-written scanners for ALL inputs: a disjunctive fact analysis over the CFG of each loop proves that every path back to the loop head consumed input (using what branch conditions and earlier primitives established about the unchanged cursor) or changed the loop's measure; plus raise classification, bounds-guard matching for text subscripts, domination of every container push by the depth limit, and regex ambiguity degree from the parse tree.",
+    "text": "Decides termination structure of the hand-written scanners for ALL inputs: a disjunctive fact analysis over the CFG of each loop proves that every path back to the loop head consumed input (using what branch conditions and earlier primitives established about the unchanged cursor) or changed the loop's measure; plus raise classification, bounds-guard matching for text subscripts, domination of every container push by the depth limit, and regex ambiguity degree from the parse tree. Also: serialisation wraps quotes, then translation, then spread/filter prefix; the container loop is left only with an empty stack or a raise; terminal look-ahead follows the whitespace skip.",
     "note": "The semantic summaries of the scanner primitives are shape-checked against their bodies on every run (exit 2 if a primitive changes shape). Trusted: Django's own Lexer/Parser terminate. Not decided: the serialise/re-parse round trip; wall-clock bounds.",
     "technique": "static loop-progress analysis (disjunctive facts over CFG), raise/guard discipline, regex parse-tree ambiguity",
 }
